@@ -158,6 +158,13 @@ Proof.
   intros s [H H6] Hp. split; [apply inv12345_close_try; assumption|]. apply inv6_phase. cbn. intros [A|A]; discriminate.
 Qed.
 
+Lemma invall_refuse : forall s b s1, InvAll s -> 1 <= n_jobs (c s) -> 1 <= b ->
+  (phase s = StartFirst \/ phase s = StartLoop) -> dispatch_shape s b false s1 true ->
+  InvAll (finalize s1 Finished true true).
+Proof.
+  intros s b s1 [H H6] Hnj Hb Hph Hsh. split; [eapply inv12345_refuse; eassumption|]. apply inv6_phase. cbn. intros [A|A]; discriminate.
+Qed.
+
 Lemma invall_close_drain : forall s r, InvAll s -> phase s = Draining r -> InvAll (abandon (set_out s (jobs s) (jset s) [] false Finished)).
 Proof.
   intros s r [H H6] Hp. split; [eapply inv12345_close_drain; eassumption|]. apply inv6_phase. cbn. intros [A|A]; discriminate.
@@ -240,6 +247,8 @@ Proof.
   - exact invall_cb_stale.
   - exact invall_want.
   - exact invall_close_try.
+  - intros s b s1 H Hnj Hb Hph Hsh. eapply invall_refuse; eauto.
+  - intros s b s1 H Hnj Hb Hph Hsh. eapply invall_refuse; eauto.
   - exact invall_close_drain.
   - exact invall_timeout.
   - exact invall_yield.
